@@ -5,7 +5,7 @@
    see theorem_notes in tools/props_d/C10.py. *)
 From RU Require Import Base.Prelude Base.Utf8 Base.U32_c13 Gen.Tables Model.Punycode Model.Uts46
   Proofs.Idna_Sim Proofs.Idna_Api Proofs.Idna_Known Proofs.Idna_Hyp Proofs.Idna_Tables Proofs.Idna_Redisc
-  Proofs.Idna_C10_Deny Proofs.Idna_C10_Prefix Proofs.Idna_C10_Inner Proofs.Idna_C10_Walk.
+  Proofs.Idna_C10_Deny Proofs.Idna_C10_Prefix Proofs.Idna_C10_Inner Proofs.Idna_C10_Walk Proofs.Idna_C10_Config.
 
 (* a borrowed result is the input *)
 Theorem C10_borrow : forall A cfg d deny hy dns r, to_ascii A cfg d deny hy dns = Ok (true, r) -> r = d.
@@ -53,6 +53,24 @@ Check C10_entry : forall A cfg d deny s,
      | (PPassthrough, _, _) => Ok (true, d) | (PWroteToSink, w, _) => Ok (false, w)
      | (PValidityError, _, _) => Err | (PSinkError, _, _) => Panic 569 | (PPanic p, _, _) => Panic p end).
 Print Assumptions C10_entry.
+
+(* entry points, continued: the deprecated Config::to_ascii (all 16 flag sets) is Uts46::to_ascii applied to the
+   transitionally mapped text, with deny list STD3 / EMPTY, hyphens CheckFirstLast / Allow, DNS length
+   VerifyAllowRootDot / Ignore - same verdict, same text, same panic site *)
+Theorem C10_entry_config : forall A cfg c domain, NvNoTrunc A -> usv_list domain ->
+  config_to_ascii A cfg c domain =
+  match to_ascii A cfg (utf8_encode (map_transitional domain (transitional_processing c)))
+          (config_deny_list c) (config_hyphens c)
+          (if cfg_verify_dns_length c then DVerifyAllowRootDot else DIgnore) with
+  | Ok (_, r) => Ok r | Err => Err | Panic p => Panic p end.
+Proof. exact config_to_ascii_agrees. Qed.
+Check C10_entry_config : forall A cfg c domain, NvNoTrunc A -> usv_list domain ->
+  config_to_ascii A cfg c domain =
+  match to_ascii A cfg (utf8_encode (map_transitional domain (transitional_processing c)))
+          (config_deny_list c) (config_hyphens c)
+          (if cfg_verify_dns_length c then DVerifyAllowRootDot else DIgnore) with
+  | Ok (_, r) => Ok r | Err => Err | Panic p => Panic p end.
+Print Assumptions C10_entry_config.
 
 (* ASCII / lower case / fixed point, the fastest tier only *)
 Theorem C10_ascii_partial : forall A cfg d deny hy, bytes d -> fast_tier d d = None ->
@@ -172,3 +190,10 @@ Proof.
   split; [exact toy_notrunc|]. split; [right; exists T_IDNA_URL_GLYPHLESS, T_IDNA_URL_LIST; reflexivity|].
   split; [repeat constructor; unfold is_byte; lia|]. vm_compute. repeat split; reflexivity.
 Qed.
+
+Example C10_config_premises_hold :
+  usv_list [65; 223; 46; 99] /\
+  config_to_ascii toy true {| use_std3_ascii_rules := true; transitional_processing := true;
+                              cfg_verify_dns_length := true; cfg_check_hyphens := true |} [65; 223; 46; 99]
+  = Ok [97; 115; 115; 46; 99].
+Proof. split; [repeat constructor; unfold is_usv; lia|vm_compute; reflexivity]. Qed.
